@@ -387,7 +387,8 @@ func (c *Ctx) varIndexRule(rule string) {
 			}
 			rets := core.Returns(fn)
 			if len(rets) == 1 && len(rets[0].Results) == 1 {
-				if t := c.O.Of(rets[0].Results[0]); t.IsCallTo("builtin:len") && t.Args[0].IsField(acc.field) {
+				if t := c.O.Of(rets[0].Results[0]); t.IsCallTo("builtin:len") && t.Args[0].Kind == "field" &&
+					(t.Args[0].Name == acc.field || c.sameLenFields(t.Args[0].Name, acc.field)) {
 					lenMethods[fn.String()] = true
 				}
 			}
@@ -409,7 +410,7 @@ func (c *Ctx) varIndexRule(rule string) {
 			d := c.ReachOf(s.Instr)
 			okB := false
 			if k, isK := constInt(it); isK {
-				okB = (k == 0 && c.fieldOnlySplit(acc.field)) || d.Implies(c.atLeast(isLen, k+1))
+				okB = (k == 0 && (c.fieldOnlySplit(acc.field) || c.parallelToSplit(acc.field))) || d.Implies(c.atLeast(isLen, k+1))
 			} else {
 				okB = d.Implies(below(it.String(), isLen))
 			}
@@ -504,6 +505,72 @@ func (c *Ctx) nonNegative(idx *core.Term, d core.DNF) bool {
 	})
 }
 
+// fieldStores lists, per base object, the values stored into the struct field named name (composite literals and
+// plain assignments alike).
+func (c *Ctx) fieldStores(name string) map[ssa.Value]ssa.Value {
+	out := map[ssa.Value]ssa.Value{}
+	for _, fn := range c.P.Funcs() {
+		for _, b := range fn.Blocks {
+			for _, in := range b.Instrs {
+				st, ok := in.(*ssa.Store)
+				if !ok {
+					continue
+				}
+				fa, ok := st.Addr.(*ssa.FieldAddr)
+				if !ok || core.FieldName(fa.X.Type(), fa.Field) != name {
+					continue
+				}
+				if _, dup := out[fa.X]; dup {
+					out[nil] = st.Val // a base written twice: not a plain constructor
+				}
+				out[fa.X] = st.Val
+			}
+		}
+	}
+	return out
+}
+
+// sameLenFields: field b is only ever set, next to field a in the same object, to make([]T, len(<the value given to a>))
+// (parallel slices built by the constructor): len(b) == len(a) in every object.
+func (c *Ctx) sameLenFields(a, b string) bool {
+	sa, sb := c.fieldStores(a), c.fieldStores(b)
+	if len(sb) == 0 || sb[nil] != nil || sa[nil] != nil {
+		return false
+	}
+	for base, vb := range sb {
+		va, ok := sa[base]
+		if !ok {
+			return false
+		}
+		tb := c.O.Of(vb)
+		if tb.Kind != "make" || len(tb.Args) < 1 || !tb.Args[0].IsCallTo("builtin:len") || tb.Args[0].Args[0].String() != c.O.Of(va).String() {
+			return false
+		}
+	}
+	return true
+}
+
+// parallelToSplit: the field is a parallel slice (sameLenFields) of a field that only ever holds strings.Split results.
+func (c *Ctx) parallelToSplit(field string) bool {
+	i := strings.LastIndex(field, ".")
+	if i < 0 {
+		return false
+	}
+	for _, fn := range c.P.Funcs() {
+		for _, b := range fn.Blocks {
+			for _, in := range b.Instrs {
+				if fa, ok := in.(*ssa.FieldAddr); ok {
+					other := core.FieldName(fa.X.Type(), fa.Field)
+					if other != field && strings.HasPrefix(other, field[:i+1]) && c.fieldOnlySplit(other) && c.sameLenFields(other, field) {
+						return true
+					}
+				}
+			}
+		}
+	}
+	return false
+}
+
 // callersOf lists the static call sites of fn in module code.
 func (c *Ctx) callersOf(fn *ssa.Function) ([]Site, bool) {
 	c.UniqueCaller(fn) // builds the index
@@ -581,11 +648,17 @@ func (c *Ctx) argVarsInvariant(fn *ssa.Function, idxS string, below func(string,
 		if !recv.IsCallTo(nab) || ctorParam >= len(recv.Args) {
 			return false
 		}
-		vars := recv.Args[ctorParam]
+		// a helper split off from the caller receives the two slices through its parameters: read them at the caller
+		vars := c.Up(s.Fn, recv.Args[ctorParam])
+		if vars.Kind != "make" && vars.V != nil {
+			if u, isU := vars.V.(*ssa.UnOp); isU {
+				vars = c.O.Of(u)
+			}
+		}
 		var list *core.Term
 		for i, p := range fn.Params {
 			if "param:"+p.Name() == listParam {
-				list = c.O.Of(args[i])
+				list = c.Up(s.Fn, c.O.Of(args[i]))
 			}
 		}
 		if list == nil || vars.Kind != "make" || len(vars.Args) < 1 || !vars.Args[0].IsCallTo("builtin:len") || vars.Args[0].Args[0].String() != list.String() {
@@ -912,4 +985,60 @@ func (c *Ctx) lineSubjectRule(rule string) {
 		r.Check(rule, sprintf("%s:%s", FnKey(s.Fn), shortCallee(s.Callee)), c.Pos(s.Pos()), ok, "a line pattern is applied to "+subj.String()+" instead of the text of a single comment line")
 	}
 	r.Floor(rule, "applications of comment-line patterns", n, 3)
+}
+
+// deferredResultRule: a closure may replace the error a function is returning only when there is none.
+func (c *Ctx) deferredResultRule(rule string) {
+	r := c.R
+	r.Rule(rule, "a deferred closure (clean-up) that assigns to the error result variable of its enclosing function does so only under `that variable == nil` (otherwise the failure being returned is replaced, typically by the nil of a successful Close, and the run reports success)")
+	n := 0
+	for _, fn := range c.P.Funcs() {
+		for _, b := range fn.Blocks {
+			for _, in := range b.Instrs {
+				a, ok := in.(*ssa.Alloc)
+				if !ok || a.Referrers() == nil {
+					continue
+				}
+				pt, isP := a.Type().Underlying().(*types.Pointer)
+				if !isP || pt.Elem().String() != "error" {
+					continue
+				}
+				// a result variable: one of its loads is returned
+				isResult := false
+				for _, rf := range *a.Referrers() {
+					if u, isU := rf.(*ssa.UnOp); isU && u.Referrers() != nil {
+						for _, r2 := range *u.Referrers() {
+							if _, isRet := r2.(*ssa.Return); isRet {
+								isResult = true
+							}
+						}
+					}
+				}
+				if !isResult {
+					continue
+				}
+				for _, rf := range *a.Referrers() {
+					mc, isMC := rf.(*ssa.MakeClosure)
+					if !isMC || !core.ClosureStores(mc, a) {
+						continue
+					}
+					deferred := false
+					if mc.Referrers() != nil {
+						for _, r2 := range *mc.Referrers() {
+							if d, isD := r2.(*ssa.Defer); isD && d.Call.Value == ssa.Value(mc) {
+								deferred = true
+							}
+						}
+					}
+					if !deferred {
+						continue // a callback that runs before the function reads the variable: its discipline is C05-2's matter
+					}
+					n++
+					r.Check(rule, FnKey(mc.Fn.(*ssa.Function))+":writes:"+a.Comment, c.InstrPos(mc), c.guardedResultWrites(mc, a),
+						"the closure assigns to the error result "+a.Comment+" of "+FnKey(fn)+" without testing that it is nil: an error on its way out is overwritten")
+				}
+			}
+		}
+	}
+	r.Note(rule+"_closures_writing_error_results", n)
 }
